@@ -143,6 +143,9 @@ Init == /\ ptr = All32 /\ ecxn = -1 /\ stage = 0 /\ form = "" /\ mop = None
         /\ \/ prog = <<>> /\ dfk = FALSE
            \/ prog = <<Ins("cld", None, None)>> /\ dfk = TRUE
            \/ prog = <<Ins("std", None, None)>> /\ dfk = TRUE
+           \* one initial state in four: a pointer is loaded from memory and the location it came from is overwritten (the other
+           \* base registers / locations come from the form ptr_load)
+           \/ prog = <<Ins("mov", R("esi", 32), M("ebx", 4, 32)), Ins("mov", M("ebx", 4, 32), I(4096))>> /\ dfk = FALSE
 PickForm == /\ stage = 0 /\ Len(prog) < MaxLen
             /\ \E f \in MemForms \cup RegForms :
                   /\ form' = f /\ stage' = (IF f \in MemForms THEN 1 ELSE 2)
